@@ -48,6 +48,32 @@ namespace boost { namespace gil {
 
 namespace detail {
 
+/// View type whose pixels have the channels of \p View in the order in which a tiff file stores them.
+/// Bit aligned views are used as they are.
+template< typename View, typename Enable = void >
+struct file_order_view
+{
+    using type = View;
+};
+
+template< typename View >
+struct file_order_view
+    <
+        View,
+        typename std::enable_if< !is_bit_aligned< typename View::value_type >::value >::type
+    >
+{
+    using type = typename view_type_from_pixel
+        <
+            pixel
+            <
+                typename channel_type< View >::type,
+                layout< typename color_space_type< View >::type >
+            >,
+            false
+        >::type;
+};
+
 /// Number of bits one pixel takes in a row or tile buffer that is traversed with the given iterator.
 template< typename Iterator >
 struct buffer_pixel_bit_size
@@ -225,7 +251,10 @@ private:
              , std::true_type // is_read_only
              )
     {
-        read_data< detail::row_buffer_helper_view< View > >( v, 0 );
+        // The samples of a pixel are stored in the order of the color space, whatever the channel
+        // order of the destination view is (bgr, argb, ...): decode into a buffer with the default
+        // layout and let the copy pair the channels by color, as the writer does.
+        read_data< detail::row_buffer_helper_view< typename detail::file_order_view< View >::type > >( v, 0 );
     }
 
     template< typename View >
